@@ -18,6 +18,10 @@ class Obl:
 def solve(constraints, timeout_ms=20000, want_model=True, strings=False, seed=0):
     """-> (result 'sat'|'unsat'|'unknown', model|None, seconds, backend)"""
     t0 = time.time()
+    # stage 1: nonlinear products treated as uninterpreted (sound for 'unsat'); most obligations are linear or match syntactically
+    s1 = z3.Solver(); s1.set("timeout", min(timeout_ms, 5000)); s1.set("arith.nl", False)
+    s1.add(*constraints)
+    if s1.check() == z3.unsat: return "unsat", None, time.time() - t0, "z3(linear)"
     s = z3.Solver()
     s.set("timeout", timeout_ms)
     if seed: s.set("random_seed", seed)
@@ -133,8 +137,10 @@ def nice_model(constraints, model, real_vars, timeout_ms=5000):
     """try to move every real-valued input to a value exactly representable as a double (so that the native replay runs
     on the very inputs the model describes); falls back to the original model"""
     fixed = []
-    s = z3.Solver(); s.set("timeout", timeout_ms); s.add(*constraints)
+    t_end = time.time() + 6.0
+    s = z3.Solver(); s.set("timeout", 1500); s.add(*constraints)
     for v in real_vars:
+        if time.time() > t_end: break
         try: fr = c_real(model, v)
         except Exception: continue
         cand = Fraction(float(fr))
@@ -143,5 +149,5 @@ def nice_model(constraints, model, real_vars, timeout_ms=5000):
             model = s.model()        # keep the constraint
         else:
             s.pop()
-    if s.check() == z3.sat: return s.model()
+            if time.time() > t_end: break
     return model
